@@ -14,8 +14,7 @@ object-store model - completeness, internal links and independence of the result
 NOT decided: that libhdf5's H5Ocopy duplicates bytes faithfully; fakeh5.copy is a deep copy
 whose sharing rules (links inside the hierarchy stay shared inside the copy, cycles, links
 leaving the hierarchy are duplicated, shallow = immediate members) are pinned to h5py by
-the differential script; counterexamples are replayed on real HDF5 files.  Data frames are
-outside (they do not run with the installed NumPy).
+the differential script; counterexamples are replayed on real HDF5 files.
 """
 from vf.ob import Ob, assume, untraced
 from vf import models, fakeh5, nixfake
@@ -98,6 +97,12 @@ def _build(src_path, dst_path):
     grp.data_arrays.append(a1)
     grp.tags.append(tg)
     grp.multi_tags.append(mt)
+    from collections import OrderedDict
+    fr = b.create_data_frame("fr", "tf", col_dict=OrderedDict([("name", str), ("id", int), ("x", float)]),
+                             data=[("a", 1, 1.5), ("b", 2, 2.5)])
+    fr.units = ["", "mV", "s"]
+    fr.definition = "def fr"
+    fr.metadata = sub
     b.metadata = s
     # an earlier copy that kept its ids: two different entities of one hierarchy share an id
     b.create_data_array("a1k", copy_from=a1)
@@ -112,6 +117,7 @@ def _build(src_path, dst_path):
     db.create_data_array("taken", "x", data=[0.0])
     db.create_tag("taken", "x", [0.0])
     db.create_multi_tag("taken", "x", positions=db.data_arrays["taken"])
+    db.create_data_frame("taken", "x", col_names=["c"], col_dtypes=[int])
     return f, g
 
 
@@ -153,6 +159,13 @@ def _c_array(a):
             "coeff": _plain(a.polynom_coefficients), "sources": [x.name for x in a.sources], "md": _md(a)}
 
 
+def _c_frame(d):
+    u = d.units
+    return {"name": d.name, "type": d.type, "definition": d.definition, "columns": tuple(d.column_names),
+            "kinds": tuple(str(x) for x in d.dtype), "rows": _plain(d[:]), "units": None if u is None else _plain(u),
+            "md": _md(d)}
+
+
 def _c_tag(t):
     return {"name": t.name, "type": t.type, "position": _plain(t.position), "extent": _plain(t.extent),
             "units": _plain(t.units), "refs": [_c_array(r) for r in t.references],
@@ -171,13 +184,15 @@ def _c_block(b):
             "mtags": [_c_mtag(m) for m in b.multi_tags],
             "groups": [{"name": g.name, "das": [x.name for x in g.data_arrays], "tags": [x.name for x in g.tags],
                         "mtags": [x.name for x in g.multi_tags]} for g in b.groups],
+            "frames": [_c_frame(d) for d in b.data_frames],
             "sources": [_c_source(s) for s in b.sources]}
 
 
 def _content(kind, e, recursive=True):
     if kind == "section":
         return _c_sec(e, recursive)
-    return {"block": _c_block, "array": _c_array, "tag": _c_tag, "mtag": _c_mtag, "prop": _c_prop}[kind](e)
+    return {"block": _c_block, "array": _c_array, "tag": _c_tag, "mtag": _c_mtag, "prop": _c_prop,
+            "frame": _c_frame}[kind](e)
 
 
 def _renamed(content, name):
@@ -219,7 +234,7 @@ def _loc(entity):
 # ---------------------------------------------------------------------------
 # the copy operation under test
 # ---------------------------------------------------------------------------
-KINDS = ["block", "array", "tag", "mtag", "section_in_file", "section_in_section", "prop"]
+KINDS = ["block", "array", "tag", "mtag", "section_in_file", "section_in_section", "prop", "frame"]
 
 
 def _scenario(f, g, kind, where):
@@ -230,6 +245,11 @@ def _scenario(f, g, kind, where):
         dest = [f, g][where]
         return b, f, dest, (lambda name, keep, ch: dest.create_block(name, copy_from=b, keep_copy_id=keep)), \
             (lambda: dest.blocks), "block"
+    if kind == "frame":
+        dest = [b, f.blocks["other"], g.blocks["dblk"]][where]
+        e = b.data_frames["fr"]
+        return e, b, dest, (lambda name, keep, ch: dest.create_data_frame(name, copy_from=e, keep_copy_id=keep)), \
+            (lambda: dest.data_frames), "frame"
     if kind in ("array", "tag", "mtag"):
         dest = [b, f.blocks["other"], g.blocks["dblk"]][where]
         if kind == "array":
@@ -279,6 +299,13 @@ def _mutate(kind, e, which):
             e.delete_dimensions()
         else:
             e.dimensions[0].unit = "ms"
+    elif kind == "frame":
+        if which == 1:
+            e.write_cell(42, position=[0, 1])
+        elif which == 2:
+            e.append_rows([("z", 9, 9.5)])
+        else:
+            e.units = ["", "kV", "ms"]
     elif kind == "tag":
         if which == 1:
             e.position = [7.0]
@@ -378,6 +405,8 @@ def _run(f, g, kind, where, nm, keep, children, side, mut, snap):
         return _no("content differs: %r" % sorted(k for k in want if got.get(k) != want[k]))
     if _content(ckind, src) != before_src:
         return _no("source changed by the copy")
+    if _raw_ids(_h5(src)) != ids_src:
+        return _no("ids of the source changed by the copy")
     # id policy
     ids_new = _raw_ids(_h5(r))
     if keep:
@@ -459,7 +488,7 @@ OBLIGATIONS = [
                   "nixio.file.File.create_block", "nixio.file.File.copy_section",
                   "nixio.section.Section.copy_section", "nixio.section.Section.create_property"],
        replay=_replay_copy,
-       outside="one source entity of each kind (block, array, tag, multi-tag, top-level and nested "
+       outside="one source entity of each kind (block, array, data frame, tag, multi-tag, top-level and nested "
                "section, property) with the link structure of the fixture; 2-3 destinations each (same "
                "parent, other parent, other file); one of four later changes on either side; data "
                "frames; what libhdf5's H5Ocopy does with bytes"),
